@@ -331,21 +331,30 @@ func workerMain(thorough bool, shard, of, from int, deadline int64, journal stri
 		jf = f
 	}
 	sum := newSummary(shard)
-	var buf [8]byte
+	// journal = (case about to run, case run before it), both +1, 0 = none.  The previous case is kept because a panic
+	// in a post-processor goroutine first runs that goroutine's deferred close(channel): the consumer may already have
+	// moved on to the next case when the runtime finally kills the process.
+	var buf [16]byte
+	prev := uint64(0)
 	for n, c := range g.cases {
 		if deadline > 0 && n%32 == 0 && time.Now().UnixNano() > deadline {
 			sum.NextIdx = c.Idx
 			break
 		}
 		if jf != nil {
-			binary.LittleEndian.PutUint64(buf[:], uint64(c.Idx)+1)
+			binary.LittleEndian.PutUint64(buf[:8], uint64(c.Idx)+1)
+			binary.LittleEndian.PutUint64(buf[8:], prev)
 			jf.WriteAt(buf[:], 0)
+			prev = uint64(c.Idx) + 1
 		}
 		o := evaluate(c, false)
 		sum.record(c, &o)
 	}
 	if jf != nil {
-		binary.LittleEndian.PutUint64(buf[:], 0)
+		// let a dying goroutine of the last case finish dying before the summary claims success
+		time.Sleep(20 * time.Millisecond)
+		binary.LittleEndian.PutUint64(buf[:8], 0)
+		binary.LittleEndian.PutUint64(buf[8:], 0)
 		jf.WriteAt(buf[:], 0)
 	}
 	w := bufio.NewWriter(os.Stdout)
@@ -368,12 +377,12 @@ type shardState struct {
 	err     error
 }
 
-func readJournal(path string) int {
+func readJournal(path string) (cur, prev int) {
 	b, err := os.ReadFile(path)
-	if err != nil || len(b) < 8 {
-		return -1
+	if err != nil || len(b) < 16 {
+		return -1, -1
 	}
-	return int(binary.LittleEndian.Uint64(b[:8])) - 1
+	return int(binary.LittleEndian.Uint64(b[:8])) - 1, int(binary.LittleEndian.Uint64(b[8:16])) - 1
 }
 
 func runWorker(self string, thorough bool, shard, of, from int, deadline int64, journal string) (*summary, string, error) {
@@ -541,18 +550,7 @@ func main() {
 		go func() {
 			defer wg.Done()
 			journal := filepath.Join(scratch, fmt.Sprintf("c08-w%d.journal", st.shard))
-			for attempt := 0; attempt < 50; attempt++ {
-				sum, stderr, err := runWorker(self, r.Thorough(), st.shard, workers, st.from, dl, journal)
-				if sum != nil {
-					st.sums = append(st.sums, sum)
-					return
-				}
-				idx := readJournal(journal)
-				if idx < 0 {
-					st.err = fmt.Errorf("worker %d died outside a case: %v: %s", st.shard, err, tail(stderr, 12))
-					return
-				}
-				// re-run the journalled case alone three times
+			dies := func(idx int) (int, string) {
 				rep := 0
 				var lastErr string
 				for k := 0; k < 3; k++ {
@@ -568,15 +566,41 @@ func main() {
 						lastErr = eb.String()
 					}
 				}
+				return rep, lastErr
+			}
+			for {
+				sum, stderr, err := runWorker(self, r.Thorough(), st.shard, workers, st.from, dl, journal)
+				if sum != nil {
+					st.sums = append(st.sums, sum)
+					return
+				}
+				cur, prev := readJournal(journal)
+				if cur < 0 {
+					st.err = fmt.Errorf("worker %d died outside a case: %v: %s", st.shard, err, tail(stderr, 12))
+					return
+				}
+				// re-run the journalled case alone three times; if it survives, the case before it (see workerMain)
+				idx, next := cur, cur+1
+				rep, lastErr := dies(cur)
+				if rep < 3 && prev >= 0 {
+					if rp, le := dies(prev); rp == 3 {
+						idx, next, rep, lastErr = prev, cur, rp, le
+					}
+				}
+				if rep < 3 {
+					lastErr = tail(stderr, 8)
+				}
 				crashMu.Lock()
 				crashes = append(crashes, crash{idx, rep, lastErr})
 				crashMu.Unlock()
-				// the dead worker's counters are lost: the shard restarts behind the crashed case and the run is
-				// reported as not exhaustive
+				// the dead worker's counters are lost: the run is reported as not exhaustive.  After the second crash
+				// the shard is abandoned (every crash already is a violation; restarting costs a process each time).
 				st.crashes = append(st.crashes, idx)
-				st.from = idx + 1
+				st.from = next
+				if rep < 3 || len(st.crashes) >= 2 {
+					return
+				}
 			}
-			st.err = fmt.Errorf("worker %d: too many crashes", st.shard)
 		}()
 	}
 	wg.Wait()
